@@ -70,9 +70,9 @@ void printNineDigits(binlog::detail::OstreamBuffer& out, int i)
 void printTimeZoneOffset(binlog::detail::OstreamBuffer& out, int seconds)
 {
   const char sign = (seconds >= 0) ? '+' : '-';
-  const int psecs = std::abs(seconds);
-  const int hours = psecs / 3600;
-  const int mins  = (psecs / 60) - 60 * hours;
+  const std::int64_t psecs = std::abs(std::int64_t{seconds});
+  const int hours = int(psecs / 3600);
+  const int mins  = int((psecs / 60) - 60 * hours);
   out.put(sign);
   printTwoDigits(out, hours < 100 ? hours : 0);
   printTwoDigits(out, mins < 100 ? mins : 0);
